@@ -6,7 +6,7 @@ import random
 import types
 
 from .. import aegen, boot, simfarm
-from ..result import Result, h64
+from ..result import Result, h64, keep_going
 
 ID = 'C20'
 LEVEL = 'exploration'
@@ -447,7 +447,7 @@ def run_firing(spec, res):
     rng = random.Random(spec['seed'])
     w = get_world()
     n = 0
-    while res.elapsed() < spec['budget']:
+    while keep_going(res, spec):
         case = gen_firing_case(rng)
         day0 = w.now().replace(hour=0, minute=0, second=0, microsecond=0) + datetime.timedelta(days=1)
         start = day0 + datetime.timedelta(seconds=case['start_skip'])
